@@ -221,7 +221,7 @@ Next ==
 \* from folding RandomElement(<constant set>) into a constant.
 RE(S) == RandomElement({x \in S : n >= 0})
 NextSim ==
-  \/ PushCache \/ PushCache \/ Pop \/ Write \/ Write \/ Checkpoint \/ WriteCheckpoint
+  \/ PushCache \/ PushCache \/ Pop \/ Write \/ Write \/ Checkpoint \/ WriteCheckpoint \/ WriteCheckpoint
   \/ \E p \in {RE(Prefixes)} : PushPrefix(p)
   \/ \E s \in {RE(Stores)}, i \in {RE(RelIdx(APfx(stack, Top)) \cap DataIdx)}, v \in {RE(Vals)} : Set(s, i, v)
   \/ \E s \in {RE(Stores)}, i \in {RE(RelIdx(APfx(stack, Top)) \cap DataIdx)}, v \in {RE(Vals)} : Set(s, i, v)
